@@ -1365,12 +1365,17 @@ def countPlain : M Unit := do
     noteCaptureSlot a
   modify fun s => { s with ignoreNextParen := false }
 
+/-- pre-scan, `(?#` or `#` under IgnorePatternWhitespace (its first rune consumed): back to it and
+    skip the comment (an unterminated comment is reported by the main scan) -/
+def countComment : M Unit := do
+  moveLeft
+  ignoreErr (scanBlank E)
+
 /-- pre-scan, `(` (consumed) -/
 def countParen (o : Opts) : M Unit := do
   let cr ← charsRight E
   if (← andM (cr ≥ 2) (andMM (rcIs E 1 35) (rcIs E 0 63))) then do
-    moveLeft
-    ignoreErr (scanBlank E)
+    countComment E
     modify fun s => { s with ignoreNextParen := false }
   else do
     pushOptions
@@ -1386,7 +1391,7 @@ def countStep : M Unit := do
     let cr ← charsRight E
     if cr > 0 then ignoreErr (scanBackslash E true)
   else if ch = 35 then
-    if o.x then do moveLeft; ignoreErr (scanBlank E) else pure ()
+    if o.x then countComment E else pure ()
   else if ch = 91 then ignoreErr (scanCharSet E (2 * E.pat.length + 4) false true)
   else if ch = 41 then do
     if !(← emptyOptionsStack) then popOptions
